@@ -57,7 +57,14 @@ class InitMethod(MethodDescriptor):
                         if instance_attr_spec.owner is not parent:
                             continue
                         if attr in kwargs:
+                            # Values handed to the parent constructor are not
+                            # copied there (see `copy_required` below), so
+                            # protect the caller's objects here.
                             parent_kwargs[attr] = kwargs.pop(attr)
+                            if not instance_attr_spec.do_not_copy:
+                                parent_kwargs[attr] = protect_via_deepcopy(
+                                    parent_kwargs[attr]
+                                )
                         else:
                             # Parent constructor may may be overridden, and not pick up
                             # subclass defaults. We pre-emptively solve this here.
